@@ -1251,4 +1251,30 @@ theorem reread_stringifyList (qs : List (Rat × Nat)) (h : ∀ p ∈ qs, (p.1 * 
 example : digits10 125 = [5, 2, 1] := by simp [digits10]
 example : rereadDec (stringifyDec (-5 / 4) 2) = -5 / 4 := reread_stringify _ _ (by norm_num)
 
+/-! ## 15. The templating step depends on the context of its own call only -/
+
+/-- statelessness: in a sequence of calls the result of a call is the one-call function of its own context and template,
+whatever contexts the earlier calls had (the model has no other input; the `jinja-history` stream ties the code to it) -/
+theorem renderAllJinja_local (before after : List (JCtx × List JPiece)) (call : JCtx × List JPiece) :
+    (renderAllJinja (before ++ call :: after))[before.length]? = some (renderJinja call.1 call.2) := by
+  simp [renderAllJinja]
+
+/-- an undefined variable prints nothing and an undefined flag selects the else-branch, however the template continues -/
+theorem renderJinja_undefined_var (c : JCtx) (n : String) (rest : List JPiece) (h : c.vars n = none) :
+    renderJinja c (.var n :: rest) = renderJinja c rest := by
+  simp [renderJinja, h]
+
+theorem renderJinja_undefined_flag (c : JCtx) (f : String) (th el : List String) (rest : List JPiece) (h : c.flags f = none) :
+    renderJinja c (.ite f false th el :: rest) = el ++ renderJinja c rest := by
+  simp [renderJinja, h]
+
+theorem renderJinja_flag (c : JCtx) (f : String) (v neg : Bool) (th el : List String) (rest : List JPiece) (h : c.flags f = some v) :
+    renderJinja c (.ite f neg th el :: rest) = (if v != neg then th else el) ++ renderJinja c rest := by
+  simp [renderJinja, h]
+
+example : renderAllJinja
+    [(⟨fun _ => none, fun f => if f = "open_economy" then some true else none⟩, [.ite "open_economy" false ["nx"] [], .text "y"]),
+     (⟨fun _ => none, fun _ => none⟩, [.ite "open_economy" false ["nx"] [], .text "y"])]
+    = [["nx", "y"], ["y"]] := by decide
+
 end IrisVerif.C04
